@@ -90,7 +90,7 @@ where
     ⟨fun a h => by simp [AState.init] at h, fun a h => by simp [AState.init] at h,
      fun t h => by simp [AState.init] at h⟩
 
-theorem resume_cancel (s : AState) (a : Acct) (hst : a.state = .initiated)
+theorem resume_cancel (s : AState) (a : Acct) (hst : a.state = .initiated) (hwf : s.walletFail = false)
     (hloc : locateTxByOutput s.wallet (a.out s.key) a.latestTx = none) :
     ((resume s a false true false none).1.acct.map (·.state)) = some .canceled := by
   unfold resume
@@ -100,9 +100,38 @@ theorem resume_cancel (s : AState) (a : Acct) (hst : a.state = .initiated)
   | some acts =>
     have : fundOrLocate s a false true false none acts = .cancel := by
       unfold fundOrLocate
-      simp only [Bool.false_or, Bool.true_and, hloc, ite_self]
+      simp only [Bool.false_or, Bool.true_and, hloc, ite_self, hwf]
       simp
     simp [this, write, Acct.stored]
+
+/-- **C20 / a wallet fault is not "funding unknown"**: when the wallet's transaction listing fails during
+recovery (and the report itself does not carry the output), the account is *not* cancelled – recovery returns
+the error and the record stays as added (`initiated`), so the next attempt / restart can still locate the
+funding transaction. -/
+theorem C20_wallet_fault_not_cancelled (s : AState) (a : Acct) (hst : a.state = .initiated)
+    (hwf : s.walletFail = true) (hfull : viaFull s.key a = false) (b : Acct)
+    (hb : (resume (write s a) a false true false none).1.acct = some b) :
+    b.state = .initiated ∧ (resume (write s a) a false true false none).2 = .err := by
+  have hlook : resumeActs .initiated ≠ none := by decide
+  unfold resume at hb ⊢
+  simp only [hst, if_true] at hb ⊢
+  cases hacts : resumeActs .initiated with
+  | none => exact absurd hacts hlook
+  | some acts =>
+    have hc : acts.contains "[onRestart || onRecovery]locateTxByOutput" = true := by
+      have := Option.some.inj (hacts.symm.trans (show resumeActs State.initiated = some _ from rfl))
+      subst this; decide
+    have hf : fundOrLocate (write s a) a false true false none acts = .fail .err := by
+      unfold fundOrLocate
+      have hw : (write s a).walletFail = true := hwf
+      have hk : (write s a).key = s.key := rfl
+      simp only [Bool.false_or, Bool.true_and, hc, hw, hk, hfull, if_true, Bool.not_false, Bool.and_self]
+      cases locateTxByOutput (write s a).wallet (a.out s.key) a.latestTx <;> simp
+    simp only [hacts, hf] at hb ⊢
+    have : b = a.stored := (Option.some.inj hb).symm
+    subst this
+    refine ⟨?_, trivial⟩
+    unfold Acct.stored; split <;> exact hst
 
 /-- **C20 / unknown funding ⇒ canceled**: an account reported open / pending open whose funding output is
 neither in a wallet transaction nor in the reported latest transaction is stored as canceled-after-recovery;
@@ -120,7 +149,7 @@ theorem C20_unknown_funding_cancelled (k : Nat) (a : Acct) (known : List Tx)
     | none => simpa using hf
     | some t => simp [hl t hlt, hf]
   simp only [step]
-  exact resume_cancel _ { a with secret := (AState.init k).signerSecret } hst
+  exact resume_cancel _ { a with secret := (AState.init k).signerSecret } hst rfl
     (by simpa [write, AState.init, Acct.out, Acct.script] using hloc)
 
 /-- **C20 / resumes watching**: whenever `RecoverAccount` succeeds, the recovered account is watched for
